@@ -107,7 +107,7 @@ def rule_VP(run: Run) -> RuleResult:
         c = repo.cls(cn)
         ps = normal(run.paths(c, "evaluate"))
         ok = bool(ps) and all(p.ret.key() == INNER for p in ps)
-        res.add(f"{c.qualname}.evaluate:returns exactly the inner value on every path", ok, c.module.relpath, c.methods["evaluate"].lineno,
+        res.add(f"{c.qualname}.evaluate:returns exactly the inner value on every path", ok, c.module.relpath, c.method("evaluate").lineno,
                 f"{len(ps)} paths" if ok else f"returns {[p.ret.key()[:60] for p in ps if p.ret.key() != INNER][:2]}", nec)
     hp_ = handler_parts(run)
     H, TW = hp_["handlers"], hp_["twins"]
@@ -313,7 +313,7 @@ def rule_SH(run: Run) -> RuleResult:
             return False
         ok = bool(with_e) and bool(without) and all(cond_of(p) is False for p in with_e) and all(cond_of(p) is True or other_switch(p) for p in without) \
             and any(cond_of(p) is True for p in without)
-        res.add(f"labrea.computation.Computation.{op}:effect skipped exactly when LABREA.EFFECTS.DISABLED", ok, cmod.relpath, co.methods[op].lineno,
+        res.add(f"labrea.computation.Computation.{op}:effect skipped exactly when LABREA.EFFECTS.DISABLED", ok, cmod.relpath, co.method(op).lineno,
                 f"{len(with_e)} paths with the effect, {len(without)} without", nec)
     ds = repo.cls("Dataset")
     from .facts import effects_toggle
@@ -380,9 +380,9 @@ def rule_L1(run: Run) -> RuleResult:
         for e in runs:
             if e.target.key() != "new:LogRequest(Child(level),Child(name),Child(msg),options)":
                 ok_args = False
-    res.add("labrea.logging.Logged.evaluate:exactly one LogRequest(...).run() on every path", bool(ps) and all(c == 1 for c in counts), lg.module.relpath, lg.methods["evaluate"].lineno,
+    res.add("labrea.logging.Logged.evaluate:exactly one LogRequest(...).run() on every path", bool(ps) and all(c == 1 for c in counts), lg.module.relpath, lg.method("evaluate").lineno,
             f"log requests per path: {counts}", nec)
-    res.add("labrea.logging.Logged.evaluate:request carries level, name, msg and the options", ok_args, lg.module.relpath, lg.methods["evaluate"].lineno, "", nec)
+    res.add("labrea.logging.Logged.evaluate:request carries level, name, msg and the options", ok_args, lg.module.relpath, lg.method("evaluate").lineno, "", nec)
     le = repo.cls("LogEffect")
     lt = le.find_method("transform")
     if lt is not None:
@@ -398,7 +398,7 @@ def rule_L1(run: Run) -> RuleResult:
     for op in ("validate", "keys", "explain"):
         ps = run.paths(lg, op)
         n = sum(1 for p in ps for e in p.events if e.kind == "call" and "LogRequest" in e.text)
-        res.add(f"labrea.logging.Logged.{op}:inspection does not log", n == 0, lg.module.relpath, lg.methods[op].lineno, f"{n} log requests", nec)
+        res.add(f"labrea.logging.Logged.{op}:inspection does not log", n == 0, lg.module.relpath, lg.method(op).lineno, f"{n} log requests", nec)
     # Dataset composes Logged at INFO level
     ds = repo.cls("Dataset")
     ok = False
@@ -555,14 +555,14 @@ def rule_WR(run: Run) -> RuleResult:
             if op in c.class_assigns:
                 bad.append(f"{op} assigned in the class body")
             if op in c.methods:
-                decos = [ast.unparse(d) for d in c.methods[op].decorator_list]
+                decos = [ast.unparse(d) for d in c.method(op).decorator_list]
                 if any(d in ("staticmethod", "classmethod", "property") for d in decos):
                     bad.append(f"{op} decorated {decos}")
         for nm in SAVED.values():
             if nm in c.methods or nm in c.class_assigns:
                 bad.append(f"defines {nm} itself")
         if "__init_subclass__" in c.methods and c.name not in ABCS:
-            t = ast.unparse(c.methods["__init_subclass__"])
+            t = ast.unparse(c.method("__init_subclass__"))
             if "super().__init_subclass__(" not in t:
                 bad.append("__init_subclass__ without super()")
         res.add(f"{c.qualname}:operations are plain methods wrapped by the ABC hooks", not bad, c.module.relpath, c.node.lineno, "ok" if not bad else "; ".join(bad), nec)
@@ -640,7 +640,7 @@ def rule_RQ(run: Run) -> RuleResult:
                 if e.kind == "call" and e.text == "run" and isinstance(e.target, Sym) and e.target.head.startswith("new:"):
                     found.add(e.target.head[4:])
         n += 1
-        res.add(f"{c.qualname}.{meth}:issues {sorted(reqs)} via .run()", reqs <= found, c.module.relpath, c.methods[meth].lineno, f"found {sorted(found)}", nec)
+        res.add(f"{c.qualname}.{meth}:issues {sorted(reqs)} via .run()", reqs <= found, c.module.relpath, c.method(meth).lineno, f"found {sorted(found)}", nec)
     res.count("sites", n)
     return res
 
@@ -806,6 +806,48 @@ def rule_MF(run: Run) -> RuleResult:
     for k, (flt, ln, sn) in forms.items():
         for src, formula in flt:
             _formula_atoms(formula, atoms)
+    # the same comparison read off the interpreter's paths (whatever the loop body looks like: guard clauses, try/except
+    # AttributeError around the attribute read, a walrus, a helper): a member is processed on the paths that issue the
+    # operation on it; the per-member conditions of those paths give the predicate
+    def path_table():
+        import re as _re
+        from .interp import Frame as _Fr, analyse_function as _af
+        CLS = r"(?:Child\(<self>\)|attr:__class__\((?:self|Child\(<instance>\))\)|classof\((?:self|Child\(<instance>\))\)|call:type\(self\))"
+
+        def norm(t: str) -> str:
+            t = _re.sub(r"elem\(call:dir\(" + CLS + r"\)\)", "NAME", t)
+            t = _re.sub(r"Child\(<members>\[\*\]\)", "MEMBER", t)
+            t = _re.sub(r"getattr\((?:self|Child\(<instance>\)|" + CLS + r"),NAME(?:,Const\(None\))?\)", "MEMBER", t)
+            return t
+        per_op = {}
+        for k_, (fl_, ln_, sn_) in forms.items():
+            cls_, mn_ = (mix, "__init__") if k_.endswith("__init__") else (meta, k_.rsplit(".", 1)[-1])
+            ps_ = analyse_method(Ctx(repo), cls_, mn_) if cls_ is meta else _af(Ctx(repo), cls_.module, cls_.methods[mn_], cls=cls_)
+            rows = []
+            for p_ in ps_:
+                if p_.status != "ret":
+                    continue
+                conds_ = list(p_.conds)
+                # a comprehension keeps an element exactly when its filter holds
+                conds_ += [(e.text, True, e.target.key()) for e in p_.events if e.kind == "filter" and e.target is not None]
+                at_ = {norm(a): v for a, v in _Fr.atoms(conds_).items() if "MEMBER" in norm(a) or "NAME" in norm(a) or "call:dir(" in a}
+                proc = any(((e.kind == "op" and e.op in ("evaluate", "validate", "keys", "explain")) or (e.kind == "call" and e.text in ("evaluate", "validate", "keys", "explain")))
+                           and e.target is not None and norm(e.target.key()) == "MEMBER" and not e.failed for e in p_.events)
+                rows.append((at_, proc))
+            per_op[k_] = rows
+        universe = sorted({a for rows in per_op.values() for at_, _ in rows for a in at_})
+        if not universe or len(universe) > 6:
+            return None
+        import itertools as _it
+        tables = {}
+        for k_, rows in per_op.items():
+            tab = []
+            for combo in _it.product([False, True], repeat=len(universe)):
+                asg = dict(zip(universe, combo))
+                tab.append(any(proc and all(asg[a] == v for a, v in at_.items()) for at_, proc in rows))
+            tables[k_] = tuple(tab)
+        return tables, universe
+    by_paths = None
     ref = None
     for k, (flt, ln, sn) in forms.items():
         if len(flt) != 1:
@@ -816,8 +858,18 @@ def rule_MF(run: Run) -> RuleResult:
         key = (src_n, _truth_table(formula, atoms))
         if ref is None:
             ref = key
-        res.add(f"labrea.datasetclass.{k}:same member source and predicate as its siblings", key == ref, f, ln,
-                f"source {src}; member processed iff {ast.unparse(formula)} (compared as a truth table over {atoms})", nec)
+        same = key == ref
+        how = f"source {src}; member processed iff {ast.unparse(formula)} (compared as a truth table over {atoms})"
+        if not same:
+            if by_paths is None:
+                by_paths = path_table() or False
+            if by_paths:
+                tabs, uni = by_paths
+                first = next(iter(forms))
+                if k in tabs and first in tabs and tabs[k] == tabs[first] and any(tabs[k]):
+                    same = True
+                    how = f"on the interpreter's paths the member is processed under the same conditions as in {first} (truth table over {uni})"
+        res.add(f"labrea.datasetclass.{k}:same member source and predicate as its siblings", same, f, ln, how, nec)
     # a per-class memo written by an operation must not be read through the MRO: a derived dataset class would
     # inherit the base's list and its own members would be evaluated but never keyed / validated / explained
     memo_bad = []
@@ -1025,6 +1077,32 @@ def rule_PL(run: Run) -> RuleResult:
 
 
 # ------------------------------------------------------------------ R-PK
+def _sentinel_confined(repo, mod, name: str) -> bool:
+    """Every reference to the module-level sentinel is the default of getattr()/dict.get()/pop()/next() or an operand of
+    ``is`` / ``is not`` — it is never stored, returned or handed to anything else, in any module that can see it."""
+    for m in repo.modules.values():
+        if m is not mod and not (name in m.imports and m.imports[name][0] == mod.name):
+            continue
+        pm = astu.parent_map(m.tree)
+        for x in ast.walk(m.tree):
+            if not (isinstance(x, ast.Name) and x.id == name):
+                continue
+            par = pm.get(id(x))
+            if isinstance(x.ctx, ast.Store):
+                if isinstance(par, (ast.Assign, ast.AnnAssign)) and pm.get(id(par)) is m.tree:
+                    continue        # its one module-level definition
+                return False
+            if isinstance(par, ast.Compare) and len(par.ops) == 1 and isinstance(par.ops[0], (ast.Is, ast.IsNot)):
+                continue
+            if isinstance(par, ast.Call) and x in par.args and par.args.index(x) >= 1:
+                f = par.func
+                if (isinstance(f, ast.Name) and f.id in ("getattr", "next") and par.args.index(x) == (2 if f.id == "getattr" else 1)) or \
+                        (isinstance(f, ast.Attribute) and f.attr in ("get", "pop") and par.args.index(x) == 1):
+                    continue
+            return False
+    return True
+
+
 def rule_PK(run: Run) -> RuleResult:
     """Identity tests only against objects whose identity survives a pickle round trip."""
     res = RuleResult("R-PK")
@@ -1032,7 +1110,7 @@ def rule_PK(run: Run) -> RuleResult:
     nec = ("`x is G` with G an ordinary module-level instance is False for the copy of G that unpickling creates: an object that "
            "held G before pickling takes the other branch afterwards (C20)")
 
-    def by_reference(mod, value: ast.expr) -> Optional[str]:
+    def by_reference(mod, value: ast.expr, name: str = "") -> Optional[str]:
         """Why the object bound by ``name = value`` keeps its identity across pickling, or None."""
         if isinstance(value, ast.Constant) and (value.value is None or isinstance(value.value, bool)):
             return "None/True/False"
@@ -1042,6 +1120,8 @@ def rule_PK(run: Run) -> RuleResult:
                 return f"member of the Enum {ci.name} (pickled by name)"
         if isinstance(value, ast.Call):
             fn = ast.unparse(value.func)
+            if fn == "object" and name and _sentinel_confined(repo, mod, name):
+                return "a private sentinel that never leaves the module's own look-ups (getattr/get/pop/next default and `is` tests only): no pickled object can hold it"
             if fn in ("object", "threading.Lock", "threading.RLock"):
                 return None
             ci = repo.resolve_class(mod, value.func) if isinstance(value.func, (ast.Name, ast.Attribute)) else None
@@ -1070,7 +1150,7 @@ def rule_PK(run: Run) -> RuleResult:
                 # follow `from .x import NAME` to the defining assignment
                 val = r[1]
                 dm = r[2] if len(r) > 2 else m
-                why = by_reference(dm, val)
+                why = by_reference(dm, val, side.id)
                 n += 1
                 if side.id == "MISSING":
                     n_missing += 1
